@@ -211,6 +211,15 @@ def run_tuple(case, r):
             # related-by-symmetry results are fine only if identical objects
             r.fail("subs", f"{tx}.subs({sub}) = {got}, direct construction "
                    f"gives {exp}")
+        # the same map applied at once (sympy's simultaneous=True, used by
+        # the library itself for the density intermediates)
+        smap_s = {sym(k): sym(v) for k, v in smap.items()}
+        got_s = tx.subs(smap_s, simultaneous=True)
+        if o_ is not None and len(o_) == 2 and got_s == -exp:
+            pass
+        elif got_s != exp:
+            r.fail("subs_simultaneous", f"{tx}.subs({smap_s}, simultaneous="
+                   f"True) = {got_s}, direct construction gives {exp}")
     distinct = len(set(X))
     classes = {label_class(x) for x in X}
     numbered = any(parse_label(x)[0][1:] for x in X)
@@ -252,6 +261,7 @@ def st_assume_case(draw):
             "targets": base["targets"], "explicit": base["explicit"],
             "spin": base["spin"], "real": real, "sym_tensors": sym_t,
             "antisym_tensors": antisym_t,
+            "poly": draw(st.sampled_from([0, 0, 1, 1, 2])),
             "mseed": draw(st.integers(0, 2**31))}
 
 
@@ -268,12 +278,22 @@ def tensor_multiset(expr, real):
 
 def run_assume(case, r):
     raw = S.Zero
-    for t in case["terms"]:
-        raw += build_term(t)
+    poly = int(case.get("poly") or 0)
+    if poly and len(case["terms"]) >= 2:
+        # first term times an *unexpanded* sum of the other terms (to a
+        # power): tensors that only occur inside a polynomial factor
+        if poly not in (1, 2):
+            raise BadCase("polynomial power")
+        raw = build_term(case["terms"][0]) * Pow(
+            Add(*[build_term(t) for t in case["terms"][1:]]), poly)
+    else:
+        poly = 0
+        for t in case["terms"]:
+            raw += build_term(t)
     targets = tuple(sorted(syms(case["targets"]), key=idx_key))
     kw = dict(real=case["real"], sym_tensors=case["sym_tensors"] or None,
               antisym_tensors=case["antisym_tensors"] or None)
-    if case["explicit"]:
+    if case["explicit"] or poly:
         kw["target_idx"] = list(targets)
     ok, e1 = lib_call(r, "assume", Expr, raw, **kw)
     if not ok:
@@ -315,6 +335,19 @@ def run_assume(case, r):
                     break
         if stop:
             break
+    # every affected tensor of the result (also inside polynomial factors)
+    # carries the declared bra-ket symmetry, i.e. has been re-canonicalised
+    want = {n: 1 for n in case["sym_tensors"]}
+    want.update({n: -1 for n in case["antisym_tensors"]})
+    if case["real"]:
+        want.update({"f": 1, "V": 1})
+    for x in S(e1.sympy).atoms(SymbolicTensor):
+        bks = getattr(x, "bra_ket_sym", None)
+        if x.name in want and bks is not None and \
+                len(x.upper) == len(x.lower) and int(bks) != want[x.name]:
+            r.fail("not_recanonicalised", f"{x} in {e1} has bra_ket_sym "
+                   f"{bks}, declared {want[x.name]} ({kw})")
+            break
     # value in a model that satisfies the assumptions
     sizes = [(1, 1)] if case["spin"] else [(2, 2), (3, 2)]
     for k, (no, nv) in enumerate(sizes):
@@ -333,6 +366,8 @@ def run_assume(case, r):
             break
     r.nontrivial = S(raw) != e1.sympy
     r.cls("assume", f"real={case['real']}")
+    if poly:
+        r.cls("assume_polynomial_factor")
     if case["sym_tensors"] or case["antisym_tensors"]:
         r.cls("braket_declared")
 
